@@ -133,7 +133,138 @@ func targetedCloseDuringCollectorTick(c *core.Ctx, variant int) {
 	c.Count("targeted.close_during_collector_tick", 1)
 }
 
+// targetedCloseFromHandler: library ticker collector; two transactions expire in the same tick; the first timeout
+// handler asks for Close (from another goroutine) and lingers: the second transaction must still complete exactly once.
+func targetedCloseFromHandler(c *core.Ctx, variant int) {
+	c.Eval(1)
+	o := rigOpts{realCollector: true, noRetransmit: true, rto: time.Second, defaultAgent: variant%2 == 1}
+	r, err := newRig(o)
+	if err != nil {
+		c.Violate("newclient", "newclient", err.Error())
+
+		return
+	}
+	closed := make(chan struct{})
+	var once sync.Once
+	mk := func(id [12]byte) *tx {
+		t := r.newTx("Start", id, 24)
+		t.Raw = append([]byte(nil), t.msg.Raw...)
+		t.CallStamp = r.w.Tick()
+		h := r.handlerFor(t)
+		t.RetErr = r.client.Start(t.msg, func(e stun.Event) {
+			h(e)
+			once.Do(func() { go func() { _ = r.close(); close(closed) }() })
+			time.Sleep(5 * time.Millisecond) // linger inside the handler while Close runs
+		})
+		t.RetStamp = r.w.Tick()
+		atomic.StoreInt32(&t.Returned, 1)
+
+		return t
+	}
+	a, b := mk(seqTID(0)), mk(seqTID(1))
+	r.w.SetNow(int64(10 * time.Second)) // both deadlines are in the past now; the next tick collects both
+	select {
+	case <-closed:
+	case <-time.After(15 * time.Second):
+		c.Violate("stuck", "stuck:Close-from-handler", map[string]interface{}{"options": o.String(), "ledger": r.describe()})
+
+		return
+	}
+	time.Sleep(10 * time.Millisecond)
+	for _, t := range []*tx{a, b} {
+		if t.RetErr == nil && len(t.invocations()) != 1 {
+			c.Violate("handler-never-invoked", "never-invoked:close-from-handler", map[string]interface{}{
+				"options": o.String(), "problem": fmt.Sprintf("transaction #%d: handler invocations %v after Close returned", t.Seq, classesOf(t.invocations())), "ledger": r.describe()})
+
+			return
+		}
+	}
+	c.Count("targeted.close_from_handler", 1)
+}
+
+// targetedResponseVsTimeout: for one transaction at a time, its response (reader goroutine) and its final timeout
+// (collector tick) are released at the same instant, over and over; afterwards the pooled objects must still be sound.
+func targetedResponseVsTimeout(c *core.Ctx, rounds int, oracles oracleSet) {
+	r, err := newRig(rigOpts{noRetransmit: true, rto: time.Millisecond, fallback: true})
+	if err != nil {
+		c.Violate("newclient", "newclient", err.Error())
+
+		return
+	}
+	now := int64(0)
+	for k := 0; k < rounds; k++ {
+		id := seqTID(int8(k % 3))
+		id[3], id[4] = byte(k), byte(k>>8)
+		t := r.newTx("Start", id, 24)
+		if err := r.start(t); err != nil {
+			c.Violate("start-failed", "start-failed", err.Error())
+
+			return
+		}
+		now += int64(time.Second)
+		var start int32
+		var wg sync.WaitGroup
+		wg.Add(2)
+		go func() {
+			defer wg.Done()
+			for atomic.LoadInt32(&start) == 0 { //nolint:revive // spin barrier
+			}
+			r.tickAt(now)
+		}()
+		resp := response(id, fmt.Sprintf("collision-%d", k))
+		go func() {
+			defer wg.Done()
+			for atomic.LoadInt32(&start) == 0 { //nolint:revive // spin barrier
+			}
+			r.deliver(id, resp, true)
+		}()
+		atomic.StoreInt32(&start, 1)
+		wg.Wait()
+		inv := t.invocations()
+		if len(inv) != 1 || (inv[0].Class != "response" && inv[0].Class != "timeout") {
+			c.Violate("collision", "response-vs-timeout", map[string]interface{}{
+				"round": k, "problem": fmt.Sprintf("handler invocations %v, exactly one of response/timeout expected", classesOf(inv)), "ledger_tail": tailOf(r.describe(), 12)})
+
+			return
+		}
+		if k%64 == 63 {
+			// pooled objects still sound? two fresh transactions answered correctly
+			for j := 0; j < 2; j++ {
+				fid := seqTID(int8(4 + j))
+				fid[5] = byte(k)
+				ft := r.newTx("Start", fid, 28)
+				_ = r.start(ft)
+				r.deliver(fid, response(fid, "collision-follow-up"), true)
+				if iv := ft.invocations(); len(iv) != 1 || iv[0].Class != "response" || iv[0].MsgTID != fid {
+					c.Violate("follow-up-not-served", "follow-up-not-served", map[string]interface{}{"round": k, "invocations": classesOf(iv), "ledger_tail": tailOf(r.describe(), 12)})
+
+					return
+				}
+			}
+			for _, p := range r.judge(oracles, false) {
+				c.Violate(p.Kind, p.Key, map[string]interface{}{"round": k, "problem": p.Detail})
+
+				return
+			}
+			r.mu.Lock()
+			r.txs, r.delivered, r.fallback = r.txs[:0], map[[12]byte][][]byte{}, r.fallback[:0]
+			r.mu.Unlock()
+		}
+	}
+	c.Eval(int64(rounds))
+	c.Count("targeted.response_vs_timeout_rounds", int64(rounds))
+	_ = r.close()
+}
+
 func c10Targeted(c *core.Ctx) {
+	c.SectionSerial("targeted-close-from-handler", 6, func(i int64, _ *gen.Rand) {
+		targetedCloseFromHandler(c, int(i))
+		c.Distinct(uint64(i) | 12<<50)
+	})
+	c.Section("targeted-response-vs-timeout", 16, func(i int64, _ *gen.Rand) {
+		targetedResponseVsTimeout(c, int(c.N(1500, 40000)), c10Oracles)
+		c.Distinct(uint64(i) | 13<<50)
+	})
 	c.SectionSerial("targeted-do-waits-for-handler", 4, func(i int64, _ *gen.Rand) {
 		targetedDoWaitsForHandler(c, i%2 == 1)
 		c.Distinct(uint64(i) | 9<<50)
